@@ -168,6 +168,91 @@ func runC16Stream(c *ev.Case, ctx *lib.Ctx, sCER, sDWR, sApp uint16, zeroIDs, fa
 	}
 }
 
+// runC16Concurrent: after the handshake, requests arrive on n different streams;
+// the handler passes each to a goroutine of its own and all of them answer at the
+// same moment. Every answer must be on the stream of the request it answers.
+func runC16Concurrent(c *ev.Case, ctx *lib.Ctx, n, rounds int, viaRetry bool) {
+	sig := func(op string) ev.Sig { return ev.Sig{"op": op, "half": "stream", "how": "concurrent-answers"} }
+	settings := &sm.Settings{OriginHost: "srv.local", OriginRealm: "realm.local", VendorID: 13, ProductName: "verif",
+		HostIPAddresses: []datatype.Address{datatype.Address([]byte{192, 0, 2, 1})}}
+	machine := sm.New(settings)
+	gate := make(chan struct{})
+	var gmu sync.Mutex
+	var wg sync.WaitGroup
+	machine.HandleIdx(diam.CommandIndex{AppID: 4, Code: 272, Request: true}, diam.HandlerFunc(func(dc diam.Conn, m *diam.Message) {
+		gmu.Lock()
+		g := gate
+		gmu.Unlock()
+		wg.Add(1)
+		go func() {
+			defer wg.Done()
+			<-g
+			if viaRetry {
+				m.Answer(2001).WriteToWithRetry(dc, 1)
+			} else {
+				m.Answer(2001).WriteTo(dc)
+			}
+		}()
+	}))
+	assoc := sctpmem.New()
+	msc := diam.VerifNewSCTPConn(assoc)
+	defer diam.VerifRelease(msc)
+	conn, err := diam.NewConn(msc, "peer", machine, ctx.Parser)
+	if err != nil {
+		c.Fail(sig("setup"), nil, nil, "NewConn: %v", err)
+		return
+	}
+	defer func() {
+		assoc.FeedEOF()
+		conn.Close()
+		synctest.Wait()
+	}()
+	assoc.Feed(0, peer.StdCER(1, 1, 4))
+	synctest.Wait()
+	for round := 0; round < rounds; round++ {
+		before := len(assoc.Writes())
+		want := map[uint32]uint16{}
+		for k := 0; k < n; k++ {
+			st := uint16((k*7 + round) % 16)
+			hbh := uint32(round<<8 | k | 0x10000)
+			want[hbh] = st
+			assoc.Feed(st, peer.Msg(0xC0, 272, 4, hbh, ^hbh, peer.Str(peer.SessionID, refcodec.UTF8String, "s;1")))
+		}
+		synctest.Wait()
+		gmu.Lock()
+		close(gate)
+		gate = make(chan struct{})
+		gmu.Unlock()
+		wg.Wait()
+		synctest.Wait()
+		ws := assoc.Writes()[before:]
+		if len(ws) != n {
+			c.Fail(sig("answer-count"), nil, nil, "round %d: %d writes on the association for %d requests answered at the same time", round, len(ws), n)
+			return
+		}
+		for _, w := range ws {
+			msgs, rest := peer.SplitMessages(w.Data)
+			if len(msgs) != 1 || len(rest) != 0 {
+				c.Fail(sig("answer-damaged"), w.Data, nil, "round %d: a write on stream %d is not one whole message", round, w.Stream)
+				return
+			}
+			h := peer.Header(msgs[0])
+			st, ok := want[h.HopByHop]
+			if !ok {
+				c.Fail(sig("answer-damaged"), w.Data, nil, "round %d: answer with an unknown hop-by-hop id %#x", round, h.HopByHop)
+				return
+			}
+			delete(want, h.HopByHop)
+			if w.Stream != st {
+				c.Fail(ev.Sig{"op": "answer-stream", "what": "concurrent answers"}, w.Data, nil, "round %d, %d requests answered at the same moment from their own goroutines: the answer to the request received on stream %d was written to stream %d", round, n, st, w.Stream)
+				return
+			}
+			c.Event("stream_answers_checked", 1)
+		}
+	}
+	c.Event("concurrent_answer_rounds", rounds)
+}
+
 func TestC16Stream(t *testing.T) {
 	rec := ev.Open(t, "C16")
 	defer rec.Close()
@@ -199,4 +284,13 @@ func TestC16Stream(t *testing.T) {
 		}
 	})
 	rec.Exhaustive("stream")
+	rec.Suite("concurrent-answers", rec.N(60, 6000), func(c *ev.Case) {
+		n := []int{2, 3, 8, 16}[c.R.IntN(4)]
+		viaRetry := c.R.IntN(3) == 0
+		c.Class("concurrent-answers/n=%d/retry=%v", n, viaRetry)
+		leak := runBubbleWD(t, rec, c, 60*time.Second, func() { runC16Concurrent(c, ctx, n, 6, viaRetry) })
+		if leak != "" && !c.Failed() {
+			c.Fail(ev.Sig{"op": "bubble-leak"}, nil, nil, "goroutines left blocked: %s", leak)
+		}
+	})
 }
